@@ -11,10 +11,19 @@
    the implementation returned / which wakers it asserted / which done channels it closed.
    Keys and link addresses are integers (0 = the zero FullAddress / the empty link address); key
    255 is the one the test resolver answers statically (with 999).  Done channels are labelled by
-   the driver in order of first appearance; ETimer is a checkLinkRequest made by the cache's own
-   resolver goroutine ([requested] = it sent another request afterwards). *)
+   the driver in order of first appearance; ETimer is a group of checkLinkRequest calls
+   (time, key, attempt, requested) made by the cache's own resolver goroutines since the driver
+   last looked, almost always one ([requested] = the goroutine sent another request afterwards),
+   with the wakers asserted and channels closed in the meantime.
+
+   CScen (thorough tier): a UDP write (kind 0) or TCP connect (kind 1) through a real stack with the
+   real constants towards [dest] (route gateway [gw], "" = on-link), the neighbour (the harness)
+   leaving the first [lost] ARP requests unanswered; frames = (time in microseconds, kind, link
+   destination, a, b): kind 1 = ARP request (a = target IP, b = sender MAC ++ sender IP),
+   kind 2 = IPv4 packet (a = destination IP, b = [protocol]), 3 = anything else; tend = when the
+   operation finished; result: 0 done (datagram / SYN on the wire), 1 ErrNoLinkAddress, 2 other. *)
 From Coq Require Import ZArith Bool List.
-From NP Require Import Model.Bytes Model.Arp Model.LinkCache.
+From NP Require Import Model.Bytes Model.Arp Model.LinkCache Model.Resolve.
 Import ListNotations.
 Open Scope Z_scope.
 
@@ -25,7 +34,7 @@ Inductive cev :=
 | EGet (now k res w r val : Z) (notified closed : list Z)
 | ECheck (now k att : Z) (stop : bool) (notified closed : list Z) (panicked : bool)
 | ERemove (now k w : Z)
-| ETimer (now k att : Z) (requested : bool) (notified closed : list Z).
+| ETimer (ts : list (Z * Z * Z * bool)) (notified closed : list Z).
 
 Inductive case :=
 (* locals: IPv4 addresses of the NIC; myMAC: the link endpoint's address; srcMAC: link-layer source
@@ -36,7 +45,9 @@ Inductive case :=
 | CArp (locals : list (list Z)) (myMAC srcMAC : list Z) (arpOn : bool) (first : list Z) (total : Z)
        (panicked : bool) (frames : list (Z * list Z * list Z)) (lookups : list (list Z * bool * list Z))
 (* nreq: LinkAddressRequest calls seen by the test resolver; next: the cache's ring index at the end *)
-| CCache (N age attempts timeout : Z) (evs : list cev) (nreq next : Z).
+| CCache (N age attempts timeout : Z) (evs : list cev) (nreq next : Z)
+| CScen (kind via lost : Z) (myMAC myIP dest gw peerMAC : list Z)
+        (frames : list (Z * Z * list Z * list Z * list Z)) (tend result : Z).
 
 Definition bneq (a b : bool) : Z := if Bool.eqb a b then 0 else 1.
 Definition zneq (a b : Z) : Z := if a =? b then 0 else 1.
@@ -68,7 +79,153 @@ Definition lookup_ok (learn : option (list Z * list Z)) (l : list Z * bool * lis
     end
   end.
 
-(* ---- corr: the model on the same bytes does what the implementation did ---- *)
+(* ---- helpers for the cache histories ---- *)
+Fixpoint insert_u (x : Z) (l : list Z) : list Z :=
+  match l with
+  | [] => [x]
+  | y :: t => if x <? y then x :: l else if x =? y then l else y :: insert_u x t
+  end.
+Definition sort_u (l : list Z) : list Z := fold_right insert_u [] l.
+
+Definition mem (x : Z) (l : list Z) : bool := existsb (Z.eqb x) l.
+Fixpoint assoc (x : Z) (m : list (Z * Z)) : option Z :=
+  match m with [] => None | (a, b) :: t => if a =? x then Some b else assoc x t end.
+
+Definition notified_of (evs : list ev) : list Z :=
+  sort_u (flat_map (fun e => match e with Notify _ w => [w] | Close _ => [] end) evs).
+(* the done channels closed by the model, as driver labels (a channel the driver never saw has none) *)
+Definition closed_of (chmap : list (Z * Z)) (evs : list ev) : list Z :=
+  sort_u (flat_map (fun e => match e with
+                             | Close ch => match assoc ch chmap with Some l => [l] | None => [] end
+                             | Notify _ _ => [] end) evs).
+Definition obs_ok (chmap : list (Z * Z)) (evs : list ev) (notified closed : list Z) : bool :=
+  leqb (notified_of evs) (sort_u notified) && leqb (closed_of chmap evs) (sort_u closed).
+
+Definition staticKey : Z := 255.
+Definition staticVal : Z := 999.
+Definition res_of (res k : Z) : option (option Z) :=
+  if res =? 0 then None else Some (if k =? staticKey then Some staticVal else None).
+
+Fixpoint corr_timers (P : params) (c : cache) (reqs : Z) (ts : list (Z * Z * Z * bool)) (acc : list ev)
+  : option (cache * Z * list ev) :=
+  match ts with
+  | [] => Some (c, reqs, acc)
+  | (now, k, att, requested) :: rest =>
+      match checkLinkRequest P c now k att with
+      | None => None
+      | Some (c', b, e) =>
+          if Bool.eqb b (negb requested) then corr_timers P c' (if b then reqs else reqs + 1) rest (acc ++ e)
+          else None
+      end
+  end.
+
+(* state of the comparison: model cache, model channel id -> driver label, requests the model
+   expects the resolver goroutines to have sent *)
+Fixpoint corr_cache (P : params) (c : cache) (chmap : list (Z * Z)) (reqs : Z) (evs : list cev)
+  : option (cache * Z) :=
+  match evs with
+  | [] => Some (c, reqs)
+  | EAdd now k v notified closed panicked :: rest =>
+      match add P c now k v with
+      | None => None
+      | Some (c', e) =>
+          if negb panicked && obs_ok chmap e notified closed then corr_cache P c' chmap reqs rest else None
+      end
+  | EGet now k res w r val notified closed :: rest =>
+      match get P c now k (res_of res k) w with
+      | None => None
+      | Some (c', g, e) =>
+          match g with
+          | GAddr v => if (r =? 0) && (val =? v) && obs_ok chmap e notified closed
+                       then corr_cache P c' chmap reqs rest else None
+          | GNoLink => if (r =? 1) && obs_ok chmap e notified closed
+                       then corr_cache P c' chmap reqs rest else None
+          | GBlock (Some ch) sp =>
+              let chmap' := match assoc ch chmap with Some _ => chmap | None => (ch, val) :: chmap end in
+              let fresh_ok := match assoc ch chmap with
+                              | Some l => l =? val
+                              | None => negb (mem val (map snd chmap))
+                              end in
+              if (r =? 2) && fresh_ok && obs_ok chmap' e notified closed
+              then corr_cache P c' chmap' (if sp then reqs + 1 else reqs) rest else None
+          | GBlock None _ => None
+          end
+      end
+  | ECheck now k att stop notified closed panicked :: rest =>
+      match checkLinkRequest P c now k att with
+      | None => None
+      | Some (c', b, e) =>
+          if negb panicked && Bool.eqb b stop && obs_ok chmap e notified closed
+          then corr_cache P c' chmap reqs rest else None
+      end
+  | ERemove now k w :: rest => corr_cache P (removeWaker c k w) chmap reqs rest
+  | ETimer ts notified closed :: rest =>
+      match corr_timers P c reqs ts [] with
+      | None => None
+      | Some (c', reqs', e) =>
+          if obs_ok chmap e notified closed then corr_cache P c' chmap reqs' rest else None
+      end
+  end.
+
+(* -- scenarios -- *)
+Definition fkind (f : Z * Z * list Z * list Z * list Z) : Z := match f with (_, k, _, _, _) => k end.
+Definition ftime (f : Z * Z * list Z * list Z * list Z) : Z := match f with (t, _, _, _, _) => t end.
+Definition fdst (f : Z * Z * list Z * list Z * list Z) : list Z := match f with (_, _, d, _, _) => d end.
+Definition fa (f : Z * Z * list Z * list Z * list Z) : list Z := match f with (_, _, _, a, _) => a end.
+Definition fb (f : Z * Z * list Z * list Z * list Z) : list Z := match f with (_, _, _, _, b) => b end.
+Definition nonempty {A} (l : list A) : bool := match l with [] => false | _ => true end.
+Definition zabs_le (x bound : Z) : bool := (- bound <=? x) && (x <=? bound).
+
+(* observed request times (µs, relative to the first) against the model's (ns) within 300 ms *)
+Fixpoint times_ok (t0 : Z) (obs : list Z) (model : list Z) : bool :=
+  match obs, model with
+  | [], [] => true
+  | o :: obs', m :: model' => zabs_le ((o - t0) * 1000 - m) 300000000 && times_ok t0 obs' model'
+  | _, _ => false
+  end.
+
+Definition corr_scen (lost : Z) (myMAC myIP dest gw peerMAC : list Z)
+  (frames : list (Z * Z * list Z * list Z * list Z)) (tend result : Z) : bool :=
+  let arps := filter (fun f => fkind f =? 1) frames in
+  let datas := filter (fun f => fkind f =? 2) frames in
+  let direct (l : list Z) :=
+    negb (nonempty arps) && (result =? 0) && nonempty datas && forallb (fun f => leqb (fdst f) l) datas in
+  match resolve_next true [] myMAC gw dest myIP with
+  | Known l => direct l
+  | Ask a =>
+      match resolve_static a with
+      | Some l => direct l
+      | None =>
+          let k := be_int a + 1 in
+          match get stackParams init 0 k (Some None) 0 with
+          | Some (c1, GBlock (Some _) true, _) =>
+              let reply (j : Z) := if lost =? j then [OAdd (j * stackTimeout + 3000000) k 1] else [] in
+              match res_run stackParams stackTimeout k c1 0 0 [reply 0; reply 1; reply 2] with
+              | Some (c2, reqs, Some fin, _) =>
+                  match get stackParams c2 fin k None 0, arps with
+                  | Some (_, g, _), first :: _ =>
+                      times_ok (ftime first) (map ftime arps) (0 :: reqs) &&
+                      forallb (fun f => leqb (fa f) a) arps &&
+                      match g with
+                      | GAddr _ =>
+                          (result =? 0) && nonempty datas &&
+                          forallb (fun f => leqb (fdst f) peerMAC &&
+                                            forallb (fun r => ftime r <? ftime f) arps) datas
+                      | GNoLink =>
+                          (result =? 1) && negb (nonempty datas) &&
+                          zabs_le ((tend - ftime first) * 1000 - fin) 500000000
+                      | GBlock _ _ => false
+                      end
+                  | _, _ => false
+                  end
+              | _ => false
+              end
+          | _ => false
+          end
+      end
+  end.
+
+(* ---- corr: the model on the same inputs does what the implementation did ---- *)
 Definition corr (c : case) : Z :=
   match c with
   | CArp locals myMAC srcMAC arpOn first total panicked frames lookups =>
@@ -79,40 +236,181 @@ Definition corr (c : case) : Z :=
           let want := match reply with Some (b, d) => [(arpProto, b, d)] | None => [] end in
           if frames_eqb want frames && forallb (lookup_ok learn) lookups then 0 else 1
       end
+  | CCache N age attempts timeout evs nreq next =>
+      let P := mkParams (Z.to_nat N) age attempts in
+      match corr_cache P init [] 0 evs with
+      | Some (c', reqs) => if (reqs =? nreq) && (Z.of_nat (c_next c') =? next) then 0 else 1
+      | None => 1
+      end
+  | CScen kind via lost myMAC myIP dest gw peerMAC frames tend result =>
+      if corr_scen lost myMAC myIP dest gw peerMAC frames tend result then 0 else 1
   end.
 
 (* ---- spec: the property text, evaluated on the implementation's output, without the model ---- *)
 Definition sub (p : list Z) (off n : nat) : list Z := firstn n (skipn off p).
 Definition zpad (n : nat) (m : list Z) : list Z := firstn n (m ++ repeat 0 n).
 
+Definition spec_arp locals myMAC srcMAC (arpOn : bool) first (panicked : bool)
+  (frames : list (Z * list Z * list Z)) (lookups : list (list Z * bool * list Z)) : Z :=
+  if panicked then 1 else
+  let wf := arpOn && (28 <=? length first)%nat && leqb (sub first 0 6) [0; 1; 8; 0; 6; 4] in
+  let isreq := wf && leqb (sub first 6 2) [0; 1] && existsb (leqb (sub first 24 4)) locals in
+  let isrep := wf && leqb (sub first 6 2) [0; 2] in
+  (* answered iff a request for one of our addresses; with our link address, addressed to the requester *)
+  let frames_ok :=
+    if isreq then
+      match frames with
+      | [(p, b, d)] =>
+          (p =? arpProto) &&
+          leqb b ([0; 1; 8; 0; 6; 4; 0; 2] ++ zpad 6 myMAC ++ sub first 24 4 ++ sub first 8 6 ++ sub first 14 4) &&
+          leqb d srcMAC
+      | _ => false
+      end
+    else match frames with [] => true | _ => false end in
+  (* learned from replies and from requests addressed to us; never a value for another address *)
+  let learn_ok :=
+    forallb (fun l => match l with (ip, found, mac) =>
+      if (isreq || isrep) && leqb ip (sub first 14 4) then found && leqb mac (sub first 8 6)
+      else negb found end) lookups in
+  if frames_ok && learn_ok then 0 else 1.
+
+(* -- monitor for cache histories; [pre] = the earlier events, most recent first -- *)
+Definition ev_time (e : cev) : Z :=
+  match e with
+  | EAdd t _ _ _ _ _ | EGet t _ _ _ _ _ _ _ | ECheck t _ _ _ _ _ _ | ERemove t _ _ => t
+  | ETimer _ _ _ => 0
+  end.
+(* the adds for k among the earlier events, most recent first: (time, value, events after it) *)
+Fixpoint adds_for (k : Z) (pre : list cev) (after : Z) : list (Z * Z * Z) :=
+  match pre with
+  | [] => []
+  | EAdd t k' v _ _ _ :: r => if k' =? k then (t, v, after) :: adds_for k r (after + 1) else adds_for k r (after + 1)
+  | _ :: r => adds_for k r (after + 1)
+  end.
+(* a get with a resolver for k at time >= lo among the earlier events *)
+Definition resolving_get_since (k lo : Z) (pre : list cev) : bool :=
+  existsb (fun e => match e with EGet t k' res _ _ _ _ _ => (k' =? k) && (res =? 1) && (lo <=? t) | _ => false end) pre.
+
+(* a get that returned the address [val]: it is the value of the latest add for k, no older than age *)
+Definition get_sound (age now k val : Z) (pre : list cev) : bool :=
+  match adds_for k pre 0 with
+  | (t, v, _) :: _ => (v =? val) && (now <=? t + age)
+  | [] => false
+  end.
+(* a get that did not return an address although it had to: the latest add for k is young, was
+   not a repetition of the same value, did not complete a pending resolution, and fewer than N-1
+   events (each allocates at most one slot) followed it *)
+Definition get_must_answer (N age now k : Z) (pre : list cev) : bool :=
+  match adds_for k pre 0 with
+  | (t, v, after) :: older =>
+      negb (v =? 0) && (now <=? t + age) && (after <? N - 1) &&
+      negb (existsb (fun a => match a with (t', v', _) => (v' =? v) && (t - age <=? t') end) older) &&
+      negb (resolving_get_since k (t - age) pre)
+  | [] => false
+  end.
+(* the time and key of the first get that returned channel label c *)
+Fixpoint first_block (c : Z) (pre : list cev) : option (Z * Z) :=
+  match pre with
+  | [] => None
+  | EGet t k _ _ r val _ _ :: rest =>
+      match first_block c rest with
+      | Some x => Some x
+      | None => if (r =? 2) && (val =? c) then Some (t, k) else None
+      end
+  | _ :: rest => first_block c rest
+  end.
+(* a check for key k that closed one of k's channels before the budget was used up, although the
+   entry had not expired *)
+Definition failed_early (age attempts now k att : Z) (closed : list Z) (pre : list cev) : bool :=
+  existsb (fun c => match first_block c pre with
+                    | Some (t0, k0) => (k0 =? k) && (att + 1 <? attempts) && (now <=? t0 + age)
+                    | None => false end) closed.
+(* has waker w blocked on anything before *)
+Definition ever_blocked (w : Z) (pre : list cev) : bool :=
+  existsb (fun e => match e with EGet _ _ _ w' r _ _ _ => (w' =? w) && (r =? 2) | _ => false end) pre.
+(* wakers with an active registration on channel c: a blocking get returned c and no removeWaker
+   for (that key, that waker) followed; [pre] most recent first *)
+Fixpoint registered (c : Z) (pre : list cev) (removed : list (Z * Z)) : list Z :=
+  match pre with
+  | [] => []
+  | ERemove _ k w :: rest => registered c rest ((k, w) :: removed)
+  | EGet _ k _ w r val _ _ :: rest =>
+      if (r =? 2) && (val =? c) && negb (existsb (fun p => (fst p =? k) && (snd p =? w)) removed)
+      then w :: registered c rest removed else registered c rest removed
+  | _ :: rest => registered c rest removed
+  end.
+Definition waiters_ok (notified closed : list Z) (pre_with_this : list cev) : bool :=
+  forallb (fun w => ever_blocked w pre_with_this) notified &&
+  forallb (fun c => forallb (fun w => mem w notified) (registered c pre_with_this [])) closed.
+
+Fixpoint spec_cache (N age attempts : Z) (pre : list cev) (evs : list cev) : Z :=
+  match evs with
+  | [] => 0
+  | e :: rest =>
+      let bad :=
+        match e with
+        | EAdd now k v notified closed panicked => panicked || negb (waiters_ok notified closed pre)
+        | EGet now k res w r val notified closed =>
+            (3 <=? r) || negb (waiters_ok notified closed (e :: pre)) ||
+            if (res =? 1) && (k =? staticKey) then negb ((r =? 0) && (val =? staticVal))
+            else if r =? 0 then negb (get_sound age now k val pre)
+            else get_must_answer N age now k pre
+        | ECheck now k att stop notified closed panicked =>
+            panicked || negb (waiters_ok notified closed pre) ||
+            (negb stop && (attempts <=? att + 1)) || failed_early age attempts now k att closed pre
+        | ERemove _ _ _ => false
+        | ETimer ts notified closed =>
+            negb (waiters_ok notified closed pre) ||
+            existsb (fun t => match t with (now, k, att, requested) =>
+                       (attempts <=? att) || (requested && (attempts <=? att + 1)) ||
+                       failed_early age attempts now k att closed pre end) ts
+        end in
+      if bad then 1 else spec_cache N age attempts (e :: pre) rest
+  end.
+
+(* -- monitor for the scenarios -- *)
+Definition bcast : list Z := [255; 255; 255; 255; 255; 255].
+Fixpoint spaced (ts : list Z) : bool :=
+  match ts with
+  | a :: ((b :: _) as r) => (750000 <=? b - a) && (b - a <=? 1400000) && spaced r
+  | _ => true
+  end.
+Definition spec_scen (via lost : Z) (myMAC myIP dest gw peerMAC : list Z)
+  (frames : list (Z * Z * list Z * list Z * list Z)) (tend result : Z) : bool :=
+  let arps := filter (fun f => fkind f =? 1) frames in
+  let datas := filter (fun f => fkind f =? 2) frames in
+  let hop := match gw with [] => dest | _ => gw end in
+  let want := if 2 <=? via then 0 else Z.min (lost + 1) 3 in
+  (* requests: broadcast, for the next hop, from us, one second apart, as many as the budget allows *)
+  (Z.of_nat (length arps) =? want) &&
+  forallb (fun f => leqb (fdst f) bcast && leqb (fa f) hop && leqb (fb f) (myMAC ++ myIP)) arps &&
+  spaced (map ftime arps) &&
+  negb (existsb (fun f => fkind f =? 3) frames) &&
+  if (via <? 2) && (3 <=? lost) then
+    (* no answer within the budget: nothing but requests on the wire, no-link-address after about 3 s *)
+    negb (nonempty datas) && (result =? 1) &&
+    match arps with first :: _ => (2750000 <=? tend - ftime first) && (tend - ftime first <=? 4000000) | [] => false end
+  else
+    (* nothing for the next hop before it is resolved; then to the learned address *)
+    (result =? 0) && nonempty datas &&
+    forallb (fun f => leqb (fa f) dest &&
+                      leqb (fdst f) (if via <? 2 then peerMAC else if via =? 2 then myMAC else bcast) &&
+                      forallb (fun r => ftime r <? ftime f) arps) datas.
+
 Definition spec (c : case) : Z :=
   match c with
   | CArp locals myMAC srcMAC arpOn first total panicked frames lookups =>
-      if panicked then 1 else
-      let wf := arpOn && (28 <=? length first)%nat && leqb (sub first 0 6) [0; 1; 8; 0; 6; 4] in
-      let isreq := wf && leqb (sub first 6 2) [0; 1] && existsb (leqb (sub first 24 4)) locals in
-      let isrep := wf && leqb (sub first 6 2) [0; 2] in
-      (* answered iff a request for one of our addresses; with our link address, addressed to the requester *)
-      let frames_ok :=
-        if isreq then
-          match frames with
-          | [(p, b, d)] =>
-              (p =? arpProto) &&
-              leqb b ([0; 1; 8; 0; 6; 4; 0; 2] ++ zpad 6 myMAC ++ sub first 24 4 ++ sub first 8 6 ++ sub first 14 4) &&
-              leqb d srcMAC
-          | _ => false
-          end
-        else match frames with [] => true | _ => false end in
-      (* learned from replies and from requests addressed to us; never a value for another address *)
-      let learn_ok :=
-        forallb (fun l => match l with (ip, found, mac) =>
-          if (isreq || isrep) && leqb ip (sub first 14 4) then found && leqb mac (sub first 8 6)
-          else negb found end) lookups in
-      if frames_ok && learn_ok then 0 else 1
+      spec_arp locals myMAC srcMAC arpOn first panicked frames lookups
+  | CCache N age attempts timeout evs nreq next => spec_cache N age attempts [] evs
+  | CScen kind via lost myMAC myIP dest gw peerMAC frames tend result =>
+      if spec_scen via lost myMAC myIP dest gw peerMAC frames tend result then 0 else 1
   end.
 
-(* ---- tag: 0 = runt / not delivered; 1 answered request; 2 reply learned; 3 valid request for a
-   foreign address; 4 valid header, other op; 5 malformed header of full length ---- *)
+(* ---- tag: CArp: 0 = runt / not delivered; 1 answered request; 2 reply learned; 3 valid request
+   for a foreign address; 4 valid header, other op; 5 malformed header of full length.
+   CCache: 0 = nothing returned an address or blocked; 11 explicit history; 12 ring overflow
+   (more events than slots); 13 real resolver timers, a resolution failed; 14 real timers, other.
+   CScen: 21 resolved after [lost] lost requests; 22 failed; 23 no resolution needed ---- *)
 Definition tag (c : case) : Z :=
   match c with
   | CArp locals myMAC srcMAC arpOn first total panicked frames lookups =>
@@ -120,6 +418,14 @@ Definition tag (c : case) : Z :=
       if negb (leqb (sub first 0 6) [0; 1; 8; 0; 6; 4]) then 5 else
       if leqb (sub first 6 2) [0; 1] then (if existsb (leqb (sub first 24 4)) locals then 1 else 3) else
       if leqb (sub first 6 2) [0; 2] then 2 else 4
+  | CCache N age attempts timeout evs nreq next =>
+      if negb (existsb (fun e => match e with EGet _ _ _ _ r _ _ _ => (r =? 0) || (r =? 2) | _ => false end) evs) then 0
+      else if N <? Z.of_nat (length evs) then 12
+      else if timeout =? 0 then 11
+      else if existsb (fun e => match e with ETimer _ _ (_ :: _) => true | _ => false end) evs then 13
+      else 14
+  | CScen kind via lost myMAC myIP dest gw peerMAC frames tend result =>
+      if 2 <=? via then 23 else if 3 <=? lost then 22 else 21
   end.
 
 Definition judge (c : case) : list Z := [corr c; spec c; tag c].
